@@ -237,6 +237,7 @@ class TreeRec:
             if self.extract:
                 self.fields[cid] = self.extract(n)
         self.layers = [tuple(self.ident(n) for n in layer) for layer in self.part.get_node_list()]
+        anom += self._layer_getter_anoms(full=True)
         self.pdepth = self.part.get_depth()
         ev = {
             "k": "init",
@@ -386,6 +387,7 @@ class TreeRec:
                 else:
                     lc.append([h, -2, list(cur)])  # rewritten
         self.layers = layers
+        anom += self._layer_getter_anoms(full=local_parent is None)
         pd = self.part.get_depth()
         ev["new"] = newdesc
         ev["kc"] = kc
@@ -394,6 +396,25 @@ class TreeRec:
         ev["fc"] = fc
         ev["anom"] = anom
         self.pdepth = pd
+
+    def _layer_getter_anoms(self, full):
+        """the per-depth list is published twice: get_node_list()[h] and get_layer_node_list(h) must be the same cells"""
+        out = []
+        getter = getattr(self.part, "get_layer_node_list", None)
+        if getter is None:
+            return out
+        try:
+            nl = self.part.get_node_list()
+            for h in range(len(nl)):
+                got = getter(h)
+                a, b = nl[h], got
+                same = a is b or (len(a) == len(b) and ((all(x is y for x, y in zip(a, b))) if full or len(a) <= 64 else (a[0] is b[0] and a[-1] is b[-1])))
+                if not same:
+                    out.append(["layer-getter", h])
+                    break
+        except Exception as e:
+            out.append(["layer-getter-raises", type(e).__name__])
+        return out
 
     def cands(self, pt):
         """ids of cells whose representative point equals pt (K odd: parent and middle child coincide)"""
